@@ -15,6 +15,7 @@ import Mqtt.Proofs.BrokerQosPersist
 import Mqtt.Proofs.BrokerQosSpec
 import Mqtt.Properties.C13
 import Mqtt.Proofs.BrokerRefineCor
+import Mqtt.Proofs.BrokerRefineCorX
 
 namespace Mqtt.Properties.C02
 
@@ -623,5 +624,32 @@ theorem C02_refines_reference (es : List Ev) (hok : okRun {} es = true) (c : Nat
   · intro id
     obtain ⟨outs, a1, a2, a3⟩ := h5 id
     exact ⟨outs, a1, by rw [Mqtt.Proofs.BrokerRefine.spec_step_eq _ _]; exact a2, a3⟩
+
+open Mqtt.Proofs.BrokerRefine (EvX okRunX runX specRunX pubOk liveSess Fan) in
+open Mqtt.Spec.Broker (Accepts) in
+/-- **C02_refines_reference after a history with failed handshakes** (Proofs/BrokerRefineFail.lean:
+`BrokerX_refines_spec`).  The same statement for the inbound QoS 2 exchange on a live connection, after a
+history that may also contain first packets whose answer could not be written (`EvX.failFirst`). -/
+theorem C02_refines_reference_with_failed_handshakes (es : List EvX) (hok : okRunX {} es = true) (c : Nat)
+    (hl : (runX {} es).1.alive c = true) :
+    (∀ p : Pub, pubOk p = true →
+      Accepts (Mqtt.Spec.Broker.step (specRunX {} es).1 (.packet c (.publish p))).2
+        (step (runX {} es).1 (.packet c (.publish p))).2) ∧
+    (∀ id, Accepts (Mqtt.Spec.Broker.step (specRunX {} es).1 (.packet c (.pubrel id))).2
+      (step (runX {} es).1 (.packet c (.pubrel id))).2) ∧
+    ∃ σ k, liveSess (runX {} es).1 c = some σ ∧ Mqtt.Spec.Broker.getConn (specRunX {} es).1 c = some k ∧
+      k.open2 = toOpen2 σ.pub2in ∧
+      (∀ p : Pub, p.qos = 2 → (step (runX {} es).1 (.packet c (.publish p))).2 = [.send c (.pubrec p.pktid)] ∧
+        (Mqtt.Spec.Broker.step (specRunX {} es).1 (.packet c (.publish p))).2 = [.send c (.pubrec p.pktid)]) ∧
+      (∀ id, ∃ outs,
+        (step (runX {} es).1 (.packet c (.pubrel id))).2 = outs ++ [.send c (.pubcomp id)] ∧
+        (Mqtt.Spec.Broker.step (specRunX {} es).1 (.packet c (.pubrel id))).2 =
+          (specReleaseAll (Mqtt.Spec.Broker.setConn (specRunX {} es).1
+              { k with open2 := toOpen2 (q2Acked (q2Ack σ.pub2in id)).1 })
+            ((q2Acked (q2Ack σ.pub2in id)).2.map (·.msg))).2 ++ [.send c (.pubcomp id)] ∧
+        Fan (specReleaseAll (Mqtt.Spec.Broker.setConn (specRunX {} es).1
+              { k with open2 := toOpen2 (q2Acked (q2Ack σ.pub2in id)).1 })
+            ((q2Acked (q2Ack σ.pub2in id)).2.map (·.msg))).2 outs) :=
+  Mqtt.Proofs.BrokerRefine.qos2_acceptedX es hok c hl
 
 end Mqtt.Properties.C02
